@@ -68,6 +68,15 @@ Fixpoint insert {V} (k : N) (v : V) (m : list (N * V)) : list (N * V) :=
       else (k', v') :: insert k v m'
   end.
 
+(* drop every entry of key k / of the keys ks *)
+Fixpoint remove {V} (k : N) (m : list (N * V)) : list (N * V) :=
+  match m with
+  | [] => []
+  | (k', v) :: m' => if k =? k' then remove k m' else (k', v) :: remove k m'
+  end.
+Definition remove_keys {V} (ks : list N) (m : list (N * V)) : list (N * V) :=
+  fold_left (fun m k => remove k m) ks m.
+
 Definition lookup_def {V} (k : N) (m : list (N * V)) (d : V) : V :=
   match lookup k m with Some v => v | None => d end.
 
